@@ -189,6 +189,22 @@ impl<T: InternalVertexInfo + super::sealed::__Sealed> VertexInfo for T {
                 .map(RequiredProperty::new)
         }));
 
+        // Tagged values of this vertex may also be used by the folds of this component:
+        // either in their post-fold filters, or inside them, in which case they are imported.
+        let properties = properties.chain(current_component.folds.values().flat_map(move |fold| {
+            let used_in_post_filters =
+                fold.post_filters.iter().filter_map(|f| f.right().and_then(Argument::as_tag));
+
+            used_in_post_filters
+                .chain(fold.imported_tags.iter())
+                .filter_map(move |field_ref| match field_ref {
+                    FieldRef::ContextField(ctx) if ctx.vertex_id == current_vertex.vid => {
+                        Some(RequiredProperty::new(ctx.field_name.clone()))
+                    }
+                    _ => None,
+                })
+        }));
+
         let mut seen_property = HashSet::new();
         Box::new(properties.filter(move |r| seen_property.insert(r.name.clone())))
     }
